@@ -217,6 +217,26 @@ def r_record_layout(ctx):
                             ctx.ok('%s: `%s` splits at the %d-byte (idx, term) header' % (m.qualname, unparse(n), H), m.loc(n), '')
                         else:
                             ctx.violation('%s:record-header-split' % m.qualname, m.loc(n), '`%s`: the (idx, term) header has %d bytes' % (unparse(n), H), instance='header split')
+    # reader loop: walks while the offset is strictly below the published end, and leaves the end offset behind
+    init = fj.methods.get('__init__')
+    inst = 'reader walks records while offset < published end offset'
+    ctx.tick()
+    loops = [n for n in ast.walk(init.node) if isinstance(n, ast.While)]
+    okw = False
+    if loops and isinstance(loops[0].test, ast.Compare) and len(loops[0].test.ops) == 1 and isinstance(loops[0].test.ops[0], ast.Lt):
+        lname = unparse(loops[0].test.left)
+        rname = unparse(loops[0].test.comparators[0])
+        rdef = [d for d in ast.walk(init.node) if isinstance(d, ast.Assign) and unparse(d.targets[0]) == rname]
+        ldef = [d for d in ast.walk(init.node) if isinstance(d, ast.Assign) and unparse(d.targets[0]) == lname]
+        stores = [d for d in ast.walk(init.node) if isinstance(d, ast.Assign) and P.self_attr(d.targets[0], init.self_name) == jp['offset_attr'] and unparse(d.value) == lname
+                  and d.lineno > loops[0].lineno]
+        okw = bool(rdef) and 'Offset' in unparse(rdef[-1].value) and bool(ldef) and unparse(ldef[0].value).isupper() and bool(stores)
+    if okw:
+        n_checked += 1
+        ctx.ok(inst, init.loc(loops[0]), '`%s`; running end offset stored after the loop' % unparse(loops[0].test))
+    else:
+        ctx.violation('%s.__init__:reader-loop-bound' % fj.name, init.loc(loops[0]) if loops else init.loc(),
+                      'the reopening reader does not walk `offset < published end offset` from the first record offset and store the end offset afterwards', instance=inst)
     # writer: size field on both sides of the body
     for n in ast.walk(add.node):
         if isinstance(n, ast.Assign) and isinstance(n.value, ast.BinOp):
